@@ -8,13 +8,16 @@ K : Godambe.get_hess / get_grad / hessian_elem on polynomial test functions (deg
     the J / cU / Godambe / GIM / FIM / LRT / Wald / score assembly from the gradients and Hessian that the real code computed
     (captured by spies, sent as exact rationals; op c19.stats); theta augmentation and nested scatter/gather (c19.aug,
     c19.scatter, c19.gather); the module-level cache through a logging dictionary (c19.cache, real object identities);
-    sum_chi2_ppf with scipy's cdf values as inputs (c19.chi2).
+    sum_chi2_ppf with scipy's cdf values as inputs (c19.chi2); Inference.ll(model, data) -- the function get_godambe differentiates --
+    on spectra whose masks differ between model, data and bootstraps vs the generated per-entry expression summed over the entries
+    the generated mask analysis leaves unmasked (c19.ll).
 L3: the property statement on the real code, independent of the model: analytic derivatives of the polynomials (exact
     fractions); closed-form H, score, J, cU of linear Poisson models (plain, boot_theta_adjusts, multinom, log) with a
-    Richardson-type O(eps^2) criterion; every statistic recomputed from the closed forms; bootstrap permutations; every call
+    Richardson-type O(eps^2) criterion, the closed forms summed over the entries masked in NEITHER the model NOR the data (H) /
+    the respective bootstrap (its score) for mask patterns that differ between model, data and bootstraps; every statistic recomputed from the closed forms; bootstrap permutations; every call
     history against the same calls on a cleared cache; sum_chi2_ppf scalar vs array vs scipy survival functions.
 """
-import math, itertools, gc
+import math, itertools, gc, contextlib, logging, io
 from fractions import Fraction
 import numpy as np
 from . import common
@@ -319,40 +322,111 @@ def step_rule_cases(chk, ctx, rng, count):
         else: chk.k_bad('step_rule', small, dict(grad=gp, hess=hp), out, None)
 
 # ----------------------------------------------------------------------------------------------- linear Poisson models
-def gen_model(rng, dadi, nparam=None, ncell=None):
+def gen_model(rng, dadi, nparam=None, ncell=None, corners=False):
     """M(p) = B_0 + sum_k p_k B_k with positive spectra B_0..B_n on one population (the fixed offset B_0 keeps the model identifiable
     when theta is a free parameter: without it (p, theta) -> (c p, theta/c) leaves the model unchanged and H, J are singular);
-    data and bootstraps Poisson around theta*M(ptrue).  Row 0 of B is the offset."""
+    data and bootstraps Poisson around theta*M(ptrue).  Row 0 of B is the offset.  corners: the absent/fixed entries are positive too
+    (a model that does not mask its corners)."""
     n = nparam or int(rng.integers(1, 4))
     ns = int(ncell or rng.integers(6, 13))
     B = np.zeros((n + 1, ns + 1))
     for k in range(n + 1):
         B[k, 1:ns] = np.vectorize(coarse)(rng.uniform(0.2, 3.0, ns - 1) * np.exp(-rng.uniform(0, 0.4) * np.arange(ns - 1) * (k + 1) / (n + 1)))
+        if corners:
+            B[k, 0] = coarse(rng.uniform(0.2, 3.0)); B[k, ns] = coarse(rng.uniform(0.2, 1.0))
     return dict(n=n, ns=ns, B=B)
 
-def model_func(dadi, B, calls=None, tag=None):
+def model_func(dadi, B, calls=None, tag=None, masks=None):
+    """masks (optional): entries the *model* masks beyond the corners (`model`), corners left unmasked (`model_corners`)"""
+    mm = list((masks or {}).get('model', [])); mc = bool((masks or {}).get('model_corners'))
     def func(params, ns, pts):
         if calls is not None: calls.append((tag, tuple(float(x) for x in params)))
         a = B[0].copy()
         for k in range(B.shape[0] - 1):
             a = a + float(params[k]) * B[k + 1]
-        return dadi.Spectrum(a)
+        if masks is None: return dadi.Spectrum(a)
+        fs = dadi.Spectrum(a, mask_corners=not mc)
+        for i in mm: fs.mask[i] = True
+        return fs
     return func
 
-def gen_dataset(rng, dadi, mdl, p, theta, nboot):
+def gen_dataset(rng, dadi, mdl, p, theta, nboot, masks=None):
     M = (mdl['B'][0] + sum(p[k] * mdl['B'][k + 1] for k in range(mdl['n']))) * theta
-    def draw():
+    if masks is None:
+        def draw():
+            d = rng.poisson(M).astype(float)
+            d[0] = 0; d[-1] = 0
+            if d[1:-1].sum() == 0: d[1] = 1.0
+            return dadi.Spectrum(d)
+        return draw(), [draw() for _ in range(nboot)]
+    def drawm(extra, unmask_corners):
         d = rng.poisson(M).astype(float)
-        d[0] = 0; d[-1] = 0
+        if not masks.get('model_corners'): d[0] = 0; d[-1] = 0
         if d[1:-1].sum() == 0: d[1] = 1.0
-        return dadi.Spectrum(d)
-    return draw(), [draw() for _ in range(nboot)]
+        fs = dadi.Spectrum(d, mask_corners=not unmask_corners)
+        for i in extra: fs.mask[i] = True
+        return fs
+    # get_godambe re-wraps every bootstrap as Spectrum(boot), which masks the corners: bootstraps always keep their corners masked
+    return drawm(masks.get('data', []), bool(masks.get('data_corners'))), [drawm(masks['boots'][b] if b < len(masks.get('boots', [])) else [], False) for b in range(nboot)]
 
-def closed_forms(B, p, data, boots, thetas, mode):
+MASK_MODES = ['data_only', 'data_boots_same', 'boots_vary', 'model_only', 'model_and_data', 'corners']
+
+def gen_masks(rng, mode, ns, nboot):
+    """an explicit mask pattern (lists of entry indices of a spectrum with ns+1 entries) in which model, data and bootstraps differ:
+    data_only: the data masks 1-3 entries (the low-frequency classes, or arbitrary ones) that neither the model nor the bootstraps mask;
+    data_boots_same: data and every bootstrap mask the same entries, the model only its corners; boots_vary: every bootstrap its own set
+    (some none); model_only: the model masks entries that data and bootstraps do not; model_and_data: both, partially overlapping,
+    bootstraps like the data or on their own; corners: the model does not mask its (positive) corners while data/bootstraps do, or the
+    data does not mask its corners while the model does, or both unmasked (bootstraps always masked: Spectrum(boot))."""
+    interior = list(range(1, ns))
+    def pick(kmax=3, low=False):
+        k = int(rng.integers(1, kmax + 1))
+        if low: return list(range(1, 1 + k))
+        return sorted(int(i) for i in rng.choice(interior, size=k, replace=False))
+    m = dict(mode=mode, data=[], boots=[[] for _ in range(nboot)], model=[], model_corners=False, data_corners=False)
+    if mode == 'data_only':
+        m['data'] = pick(low=bool(rng.random() < 0.5))
+    elif mode == 'data_boots_same':
+        D = pick(low=bool(rng.random() < 0.5)); m['data'] = D; m['boots'] = [list(D) for _ in range(nboot)]
+    elif mode == 'boots_vary':
+        m['data'] = pick(2) if rng.random() < 0.5 else []
+        m['boots'] = [pick(2) if (b == 0 or rng.random() < 0.7) else [] for b in range(nboot)]
+    elif mode == 'model_only':
+        m['model'] = pick(2)
+    elif mode == 'model_and_data':
+        m['model'] = pick(2); D = pick(2)
+        if rng.random() < 0.5 and m['model'][0] not in D: D = sorted(D + [m['model'][0]])[:3]
+        if all(i in m['model'] for i in D): D = sorted(set(D) | {[i for i in interior if i not in m['model']][0]})
+        m['data'] = D
+        m['boots'] = [list(D) if rng.random() < 0.5 else pick(2) for _ in range(nboot)]
+    elif mode == 'corners':
+        r = int(rng.integers(3))
+        m['model_corners'] = r in (0, 2); m['data_corners'] = r in (1, 2)
+        if rng.random() < 0.4: m['data'] = pick(2)
+    else:
+        raise KeyError(mode)
+    return m
+
+@contextlib.contextmanager
+def quiet(on=True):
+    """ll_per_bin logs warnings and prints two numbers when the model masks entries that the data does not: expected for those patterns"""
+    if not on:
+        yield; return
+    lg = logging.getLogger('Inference'); old = lg.disabled; lg.disabled = True
+    try:
+        with contextlib.redirect_stdout(io.StringIO()):
+            yield
+    finally:
+        lg.disabled = old
+
+def closed_forms(B, p, data, boots, thetas, mode, keep_d=None, keep_bs=None):
     """exact H = -d2 ll, per-bootstrap score vectors, for mode in plain | multinom | log | multinom_log.
-    B: (1+n, cells) offset and basis (unmasked cells only), p: the parameter vector *as get_godambe sees it* (theta last for multinom)."""
+    B: (1+n, cells) offset and basis, p: the parameter vector *as get_godambe sees it* (theta last for multinom).  keep_d / keep_bs[b]:
+    boolean selection of the cells that are masked in neither the model nor the data / bootstrap b (None = all cells passed)."""
     B0 = B[0]; B = B[1:]
-    n = B.shape[0]
+    n = B.shape[0]; nc = B.shape[1]
+    if keep_d is None: keep_d = np.ones(nc, dtype=bool)
+    if keep_bs is None: keep_bs = [np.ones(nc, dtype=bool) for _ in boots]
     if mode.startswith('multinom'):
         q = np.asarray(p[:-1]); th = p[-1]
         lin = B0 + q @ B
@@ -370,18 +444,19 @@ def closed_forms(B, p, data, boots, thetas, mode):
         for a in range(N):
             d2M[a, a] = d2M[a, a] + pv[a] * dM[a]
         dM = dM * pv[:, None]
-    def hess(d, t=1.0):
-        # ll = -t M + d log(t M):  d2 = -t d2M + d (d2M/M - dM dM/M^2)
-        Hm = np.zeros((N, N))
+    def hess(d, keep, t=1.0):
+        # ll = -t M + d log(t M):  d2 = -t d2M + d (d2M/M - dM dM/M^2), summed over the kept cells
+        Hm = np.zeros((N, N)); Mk = M[keep]; dk = d[keep]
         for a in range(N):
             for b in range(N):
-                Hm[a, b] = -np.sum(-t * d2M[a, b] + d * (d2M[a, b] / M - dM[a] * dM[b] / M ** 2))
+                Hm[a, b] = -np.sum(-t * d2M[a, b][keep] + dk * (d2M[a, b][keep] / Mk - dM[a][keep] * dM[b][keep] / Mk ** 2))
         return Hm
-    def score(d, t=1.0):
-        return np.array([np.sum(-t * dM[a] + d * dM[a] / M) for a in range(N)])
-    H = hess(data)
-    gs = [score(b, t) for b, t in zip(boots, thetas)]
-    L = float(np.sum(np.abs(M)) + np.sum(np.abs(data * np.log(M))) + np.sum(np.abs([math.lgamma(v + 1) for v in data])))
+    def score(d, keep, t=1.0):
+        Mk = M[keep]; dk = d[keep]
+        return np.array([np.sum(-t * dM[a][keep] + dk * dM[a][keep] / Mk) for a in range(N)])
+    H = hess(data, keep_d)
+    gs = [score(b, k, t) for b, k, t in zip(boots, keep_bs, thetas)]
+    L = float(np.sum(np.abs(M[keep_d])) + np.sum(np.abs(data[keep_d] * np.log(M[keep_d]))) + np.sum(np.abs([math.lgamma(v + 1) for v in data[keep_d]])))
     return H, gs, L
 
 def stats_from(H, gs, diff=None):
@@ -471,7 +546,15 @@ def flat_result(api, r):
     return np.array([float(r[0]), float(r[1])])
 
 def gen_pipeline_case(rng, dadi, api=None, **force):
-    mdl = gen_model(rng, dadi, nparam=force.get('nparam'))
+    """force: nparam, multinom, log, thetas_mode, variant, mask_mode (None/'none' = model, data and bootstraps all mask exactly the
+    corners; otherwise one of MASK_MODES), nested_size (number of nested indices; with multinom=True the index of theta may be among them)"""
+    mask_mode = force.get('mask_mode') or 'none'
+    mc = None
+    if mask_mode != 'none':
+        # enough entries that 2-5 masked ones leave the information matrices well determined
+        ncell = int(rng.integers(11, 17))
+        mc = bool(mask_mode == 'corners')
+    mdl = gen_model(rng, dadi, nparam=force.get('nparam'), ncell=ncell if mask_mode != 'none' else None, corners=bool(mc))
     n = mdl['n']
     api = api or APIS[int(rng.integers(len(APIS)))]
     multinom = bool(rng.random() < 0.5) if 'multinom' not in force else force['multinom']
@@ -488,8 +571,13 @@ def gen_pipeline_case(rng, dadi, api=None, **force):
             nested = [0]
         else:
             k = int(rng.integers(1, n + 1)) if n > 1 else 1
-            nested = sorted(int(i) for i in rng.choice(n, size=min(k, n), replace=False))
-        full = [coarse(p[i] * rng.uniform(0.7, 1.3)) for i in nested]
+            if force.get('nested_size'): k = int(force['nested_size'])
+            pool = n + 1 if (multinom and (force.get('nested_size') or rng.random() < 0.3)) else n      # index n = theta (multinom only)
+            nested = sorted(int(i) for i in rng.choice(pool, size=min(k, pool), replace=False))
+            # Wald_stat reads a `full_params` of length len(p0) as the whole parameter list: keep the nested form unambiguous
+            if api == 'Wald_stat' and multinom and n in nested and len(nested) == n:
+                nested = sorted(int(i) for i in rng.choice(n, size=min(k, n), replace=False))
+        full = [coarse((p[i] if i < n else theta) * rng.uniform(0.7, 1.3)) for i in nested]
     tmode = force.get('thetas_mode')
     if tmode is None:
         tmode = 'none'
@@ -498,19 +586,67 @@ def gen_pipeline_case(rng, dadi, api=None, **force):
     thetas = None if tmode == 'none' else ([1.0] * nboot if tmode == 'ones' else [coarse(rng.uniform(0.6, 1.5)) for _ in range(nboot)])
     variant = force.get('variant')
     if 'variant' not in force and api in ('GIM_uncert', 'FIM_uncert') and rng.random() < 0.3: variant = 'plain'
-    return dict(pipeline=True, api=api, B=mdl['B'], n=n, ns=mdl['ns'], p=p, theta=theta, nboot=nboot, eps=eps, multinom=multinom, log=log,
+    case = dict(pipeline=True, api=api, B=mdl['B'], n=n, ns=mdl['ns'], p=p, theta=theta, nboot=nboot, eps=eps, multinom=multinom, log=log,
                 nested=nested, full=full, thetas=thetas, thetas_mode=tmode, variant=variant, dseed=int(rng.integers(1 << 30)))
+    if mask_mode != 'none':
+        case['masks'] = gen_masks(rng, mask_mode, mdl['ns'], nboot)
+        if mask_mode == 'corners' and not case['masks']['model_corners']:
+            case['B'] = np.array(case['B']); case['B'][:, 0] = 0.0; case['B'][:, -1] = 0.0      # a model that masks its corners has nothing there
+    return case
 
 def realise(dadi, case):
     r = np.random.default_rng(case['dseed'])
     B = np.asarray(case['B'], dtype=float) if not isinstance(case['B'], dict) else np.array(case['B']['data'], dtype=float).reshape(case['B']['shape'])
     mdl = dict(n=case['n'], ns=case['ns'], B=B)
-    data, boots = gen_dataset(r, dadi, mdl, case['p'], case['theta'], case['nboot'])
-    if case.get('thetas'):
+    masks = case.get('masks')
+    data, boots = gen_dataset(r, dadi, mdl, case['p'], case['theta'], case['nboot'], masks=masks)
+    if case.get('thetas') and masks is None:
         boots = [dadi.Spectrum(np.round(np.asarray(b) * t)) for b, t in zip(boots, case['thetas'])]
         for b in boots:
             if b[1:-1].sum() == 0: b[1] = 1.0
+    elif case.get('thetas'):
+        nb = []
+        for b, t in zip(boots, case['thetas']):
+            v = np.round(np.asarray(b.data) * t)
+            if v[1:-1].sum() == 0: v[1] = 1.0
+            nb.append(dadi.Spectrum(v, mask=np.array(np.ma.getmaskarray(b)), mask_corners=False))
+        boots = nb
     return B, data, boots
+
+def keep_sets(case, ncell, data, boots):
+    """from the property statement: the entries that are masked in neither the model nor the data (-> H), and in neither the model nor
+    bootstrap b (-> its score).  Model: its corners unless `model_corners`, plus masks['model']."""
+    masks = case.get('masks') or {}
+    mk = np.ones(ncell, dtype=bool)
+    if not masks.get('model_corners'): mk[0] = False; mk[-1] = False
+    for i in masks.get('model', []): mk[i] = False
+    return mk, mk & ~np.ma.getmaskarray(data), [mk & ~np.ma.getmaskarray(b) for b in boots]
+
+def bits(mask):
+    return ''.join('1' if b else '0' for b in np.asarray(mask, dtype=bool).ravel())
+
+def ll_k_case(chk, ctx, small, model, data, tag):
+    """K: Inference.ll(model, data) and the number of entries it sums vs the Lean model (generated per-entry expression, generated
+    mask analysis); log(model) and gammaln(data+1) are inputs"""
+    dadi = ctx['dadi']; drv = ctx['driver']
+    mm = np.ma.getmaskarray(model); dm = np.ma.getmaskarray(data)
+    m = np.asarray(model.data, dtype=float).ravel(); d = np.asarray(data.data, dtype=float).ravel()
+    if not (np.all(np.isfinite(m)) and np.all(np.isfinite(d)) and np.all(d >= 0)):
+        chk.k_skipped += 1; return
+    logm = [math.log(v) if v > 0 else 0.0 for v in m]
+    lg = [math.lgamma(v + 1.0) for v in d]
+    with quiet(), np.errstate(all='ignore'):
+        got = float(dadi.Inference.ll(model, data)); cnt = int(dadi.Inference.ll_per_bin(model, data).count())
+    out = drv.ask('c19.ll %s %s %s %s %s %s' % (bits(mm), bits(dm), fmt_list(m.tolist()), fmt_list(d.tolist()), fmt_list(logm), fmt_list(lg)))
+    t = out.split(' ')
+    sm = dict(small); sm['ll'] = dict(which=tag, model_mask=bits(mm), data_mask=bits(dm))
+    if t[0] != 'ok':
+        chk.k_bad('ll', sm, got, out, None); return
+    want = float(Fraction(t[1])); wc = int(t[2])
+    scale = float(np.sum(np.abs(m)) + np.sum(np.abs(d * np.array(logm))) + np.sum(np.abs(lg)))
+    if cnt == wc and abs(got - want) <= 1e-10 * max(scale, 1e-300): chk.k_ok('ll')
+    else: chk.k_bad('ll', sm, dict(ll=got, entries=cnt), dict(ll=want, entries=wc), abs(got - want))
+    chk.stat('ll:model_mask%sdata_mask' % ('=' if np.array_equal(mm, dm) else ('<' if np.all(dm[mm]) else ('>' if np.all(mm[dm]) else '<>'))))
 
 def pipeline_case(chk, ctx, case):
     """one entry point on one linear Poisson model: K (assembly from the captured gradients/Hessian) and L3 (closed forms)"""
@@ -520,12 +656,15 @@ def pipeline_case(chk, ctx, case):
     small = dict(case); small['B'] = np.asarray(B)
     # multinom=False: theta is part of the model (all spectra scaled by it); multinom=True: theta is found by the code
     if not multinom: B = B * case['theta']
-    func = model_func(dadi, B)
+    masks = case.get('masks'); mmode = masks['mode'] if masks else 'none'
+    func = model_func(dadi, B, masks=masks)
     p_in = list(case['p']); f_in = func
     nested, full, thetas = case['nested'], case['full'], case['thetas']
     variant = case.get('variant'); tmode = case.get('thetas_mode') or ('varied' if thetas else 'none')
-    key0 = '%s:multinom=%s%s%s' % (api, multinom, ':log' if log else '', ':boot_theta_adjusts' if tmode == 'varied' else '')
-    chk.l3((api, multinom, log, n, tmode, variant, tuple(nested) if nested else None))
+    key0 = '%s:multinom=%s%s%s%s' % (api, multinom, ':log' if log else '', ':boot_theta_adjusts' if tmode == 'varied' else '', ':masks=' + mmode if masks else '')
+    chk.l3((api, multinom, log, n, tmode, variant, tuple(nested) if nested else None, mmode))
+    chk.stat('masks:' + mmode)
+    if nested is not None: chk.stat('nested_indices:%d%s' % (len(nested), ':with_theta' if (multinom and n in nested) else ''))
     chk.stat('api:' + api); chk.stat('multinom:%s' % multinom);
     if log: chk.stat('log_params')
     if thetas: chk.stat('boot_theta_adjusts:' + tmode)
@@ -533,7 +672,7 @@ def pipeline_case(chk, ctx, case):
     G.cache.clear()
     with Spy(G) as spy:
         try:
-            with np.errstate(all='ignore'):
+            with np.errstate(all='ignore'), quiet(masks is not None):
                 res = call_api(G, api, f_in, [10], boots, p_in, data, eps, multinom, log=log, nested=nested, full=full, thetas=thetas, variant=variant)
         except Exception as e:
             chk.fail('%s:%s' % (key0, type(e).__name__), '%s on a linear Poisson model raises %r' % (api, e), small); return
@@ -546,7 +685,8 @@ def pipeline_case(chk, ctx, case):
     # ---- glue (K): parameters handed on = augmentation / gather, the wrapped function = theta * model / scatter
     theta_opt = None
     if multinom:
-        theta_opt = float(dadi.Inference.optimal_sfs_scaling(func(p_in, None, None), data))
+        with quiet(masks is not None):
+            theta_opt = float(dadi.Inference.optimal_sfs_scaling(func(p_in, None, None), data))
         out = drv.ask('c19.aug %s %s' % (fmt_list(p_in), rat(theta_opt)))
         p_aug = [float(v) for v in parse_list(out[3:])] if out.startswith('ok ') else None
     else:
@@ -632,6 +772,13 @@ def pipeline_case(chk, ctx, case):
                 cmp([res[0]], f(10)); cmp([res[1]], f(9))
             if ok: chk.k_ok('assembly:' + api)
             else: chk.k_bad('assembly:' + api, small, ret, out[:400], worst)
+    # ---- the likelihood that was differentiated (K): Inference.ll on these spectra vs the generated expression / mask analysis
+    try:
+        mfs = func(p_in, None, None)
+        ll_k_case(chk, ctx, small, mfs if not multinom else theta_opt * mfs, data, 'data')
+        if boots: ll_k_case(chk, ctx, small, mfs if not multinom else theta_opt * mfs, dadi.Spectrum(boots[-1]), 'bootstrap')
+    except Exception as e:
+        chk.k_bad('ll', small, repr(e), None, None)
     # ---- L3: closed forms of the linear Poisson model within O(eps^2)
     l3_closed_forms(chk, ctx, case, small, key0, B, data, boots, func, p_in, f_in, res, H, grads, god, theta_opt)
 
@@ -640,12 +787,29 @@ def l3_closed_forms(chk, ctx, case, small, key0, B, data, boots, func, p_in, f_i
     api, n, eps, multinom, log = case['api'], case['n'], case['eps'], case['multinom'], case['log']
     nested, full, thetas = case['nested'], case['full'], case['thetas']
     variant = case.get('variant'); hess_only = api == 'FIM_uncert' or (api == 'get_godambe' and variant == 'just_hess')
-    Bc = B[:, 1:-1]; d = np.asarray(data)[1:-1]; bs = [np.asarray(b)[1:-1] for b in boots]
+    masks = case.get('masks')
+    d = np.asarray(np.ma.getdata(data), dtype=float); bs = [np.asarray(np.ma.getdata(b), dtype=float) for b in boots]
+    mk, keep_d, keep_bs = keep_sets(case, B.shape[1], data, boots)
     mode = ('multinom' if multinom else 'plain') + ('_log' if log else '')
     if mode == 'plain_log': mode = 'log'
-    pfull = list(p_in) + ([theta_opt] if multinom else [])
+    if multinom:
+        # the scaling of a multinomial fit, from its definition: sum of the data over the sum of the model, over the jointly unmasked entries
+        M0 = B[0] + np.asarray(p_in, dtype=float) @ B[1:]
+        theta_x = float(d[keep_d].sum() / M0[keep_d].sum())
+        # what the entry point really appended (seen where theta is among the parameters handed to get_godambe)
+        theta_used = theta_opt
+        if nested is None: theta_used = float(god['p0'][-1])
+        elif n in nested: theta_used = float(god['p0'][list(nested).index(n)])
+        for tv in (theta_used, theta_opt):
+            if not abs(tv - theta_x) <= 1e-9 * abs(theta_x):
+                chk.fail(key0 + ':theta_opt', '%s: the theta appended for the multinomial fit is %r; sum(data)/sum(model) over the entries masked in neither is %r' % (api, tv, theta_x), small)
+                return
+    pfull = list(p_in) + ([theta_x] if multinom else [])
     ths = list(thetas) if thetas else [1.0] * len(bs)
-    Hx, gx, L = closed_forms(Bc, pfull, d, bs, ths, mode)
+    Hx, gx, L = closed_forms(B, pfull, d, bs, ths, mode, keep_d, keep_bs)
+    if masks:
+        chk.stat('entries_in_H:%d_of_%d' % (int(keep_d.sum()), B.shape[1]))
+        chk.stat('bootstraps_with_own_mask', sum(1 for k in keep_bs if not np.array_equal(k, keep_d)))
     idx = list(nested) if nested is not None else list(range(len(pfull)))
     Hx = Hx[np.ix_(idx, idx)]; gx = [g[idx] for g in gx]
     N = len(idx)
@@ -653,7 +817,7 @@ def l3_closed_forms(chk, ctx, case, small, key0, B, data, boots, func, p_in, f_i
     G.cache.clear()
     with Spy(G) as spy2:
         try:
-            with np.errstate(all='ignore'):
+            with np.errstate(all='ignore'), quiet(masks is not None):
                 call_api(G, api, f_in, [10], boots, p_in, data, eps / 2, multinom, log=log, nested=nested, full=full, thetas=thetas, variant=variant)
         except Exception as e:
             chk.fail('%s:%s' % (key0, type(e).__name__), '%s raises %r at eps/2' % (api, e), small); return
@@ -756,7 +920,7 @@ def refusal_cases(chk, ctx, rng):
     dadi = ctx['dadi']; G = dadi.Godambe
     for api in ('GIM_uncert', 'LRT_adjust'):
         for tmode in ('ones', 'varied'):
-            case = gen_pipeline_case(rng, dadi, api=api, multinom=True, log=False, thetas_mode='none')
+            case = gen_pipeline_case(rng, dadi, api=api, multinom=True, log=False, thetas_mode='none', mask_mode='none')
             B, data, boots = realise(dadi, case)
             th = [1.0] * len(boots) if tmode == 'ones' else [coarse(rng.uniform(0.6, 1.5)) for _ in boots]
             small = dict(case); small['B'] = np.asarray(B); small['refusal'] = tmode
@@ -790,6 +954,24 @@ def option_matrix(rng, dadi):
             cases.append(gen_pipeline_case(rng, dadi, api=api, multinom=multinom, log=False, thetas_mode='none'))
     return cases
 
+def nested_matrix(rng, dadi):
+    """the nested tests with 1, 2 and 3 nested indices out of 3 correlated parameters (overlapping basis spectra: H and J are far from
+    diagonal), theta fixed by the model and free (multinom: its index may be nested too)"""
+    cases = []
+    for api in ('LRT_adjust', 'Wald_stat', 'score_stat'):
+        for k in (1, 2, 3):
+            for multinom in (False, True):
+                cases.append(gen_pipeline_case(rng, dadi, api=api, nparam=3, multinom=multinom, log=False, thetas_mode='none', nested_size=k))
+    return cases
+
+def mask_matrix(rng, dadi):
+    """every entry point x every kind of mask pattern in which model, data and bootstraps differ (other options drawn at random)"""
+    cases = []
+    for api in APIS_ALL:
+        for mode in MASK_MODES:
+            cases.append(gen_pipeline_case(rng, dadi, api=api, mask_mode=mode))
+    return cases
+
 def perm_case(chk, ctx, case, rng):
     """L3: the order of the bootstrap list (and of boot_theta_adjusts with it) does not matter"""
     dadi = ctx['dadi']; G = dadi.Godambe
@@ -799,19 +981,19 @@ def perm_case(chk, ctx, case, rng):
     multinom = case['multinom']
     small = dict(case); small['B'] = np.asarray(B); small['perm'] = True
     if not multinom: B = B * case['theta']
-    func = model_func(dadi, B)
+    func = model_func(dadi, B, masks=case.get('masks'))
     p_in = list(case['p'])
     full = case['full']
     try:
         G.cache.clear()
-        with np.errstate(all='ignore'):
+        with np.errstate(all='ignore'), quiet(case.get('masks') is not None):
             r0 = flat_result(api, call_api(G, api, func, [10], boots, p_in, data, case['eps'], multinom, log=case['log'], nested=case['nested'], full=full, thetas=case['thetas'], variant=case.get('variant')))
         for it in range(3):
             o = [int(i) for i in rng.permutation(len(boots))]
             if it == 2: o = list(reversed(range(len(boots))))
             chk.l3(('perm', api, multinom, it))
             G.cache.clear()
-            with np.errstate(all='ignore'):
+            with np.errstate(all='ignore'), quiet(case.get('masks') is not None):
                 r1 = flat_result(api, call_api(G, api, func, [10], [boots[i] for i in o], p_in, data, case['eps'], multinom, log=case['log'], nested=case['nested'],
                                                full=full, thetas=[case['thetas'][i] for i in o] if case['thetas'] else None, variant=case.get('variant')))
             # float summation order changes J by ~u; the statistics amplify that by the conditioning of J and H
@@ -1031,7 +1213,11 @@ def run(chk, ctx):
                 '4-11 bootstraps; first the FULL CROSS PRODUCT of the options each entry point has -- get_godambe: log x boot_theta_adjusts {none, all 1, varied} x just_hess; '
                 'GIM_uncert: log x multinom x adjusts {none, all 1, varied (multinom=False only; with multinom=True the documented ValueError is checked)} x return_GIM; '
                 'FIM_uncert: log x multinom x return_FIM; LRT_adjust: multinom x adjusts; Wald_stat/score_stat: multinom -- each compared with the closed-form H, scores, J, cU, '
-                'GIM and uncertainties (once per run in quick, 8 times in thorough), then random draws of the same options with nested index sets; eps log-uniform in [1e-4, 1e-1], each run also at '
+                'GIM and uncertainties (once per run in quick, 8 times in thorough); then LRT_adjust/Wald_stat/score_stat with 1, 2 and 3 nested indices out of 3 correlated '
+                'parameters x multinom (the index of theta may be nested), and every entry point x every kind of MASK PATTERN in which model, data and bootstraps differ '
+                '(data masks low-frequency/arbitrary entries that model and bootstraps do not; data and bootstraps alike; every bootstrap its own set; the model masks entries the '
+                'data does not; both, overlapping; corners unmasked in the model or in the data) on 11-16 samples, the closed forms summed over the entries masked in neither the '
+                'model nor the data (H) / the bootstrap (score), theta of a multinomial fit from the same entries; then random draws of the same options with nested index sets; eps log-uniform in [1e-4, 1e-1], each run also at '
                 'eps/2; bootstrap lists permuted; histories of 3-6 entry-point calls on two models sharing ns/pts and the null value of the nested parameter, each compared with '
                 'the same call on an empty cache; sum_chi2_ppf with 2-4 weights, scalar / list / tuple / ndarray / 0-d arguments, zeros, unnormalised weights. '
                 'non-trivial/distinct = distinct (kind of check, n, degree, parameter kinds, entry point, options)')
@@ -1041,7 +1227,9 @@ def run(chk, ctx):
         'quadratics, the exact h^2 error terms on cubics/quartics, and that the closed forms themselves are the exact derivatives (C19_linear_poisson_exact_parts)',
         'round-off: theorems are about exact field arithmetic; the float code agrees with the exact model within 1e-9 plus the amplification u*|f|/(h_i h_j) inherent to differences',
         'numpy.linalg.inv / dot vs exact Gauss-Jordan: numerical (K), ill-conditioned J/H skipped on the model side',
-        'Inference.ll inside get_godambe (property C11) and Spectrum(boot) re-wrapping: exercised, not modelled here',
+        'Inference.ll inside get_godambe: its per-entry expression and its mask (which of model.mask / data.mask / non-positive model entries the summed array carries) are '
+        'generated from dadi/Inference.py and compared with the real ll on every pipeline case (K); log and gammaln values are inputs to the model; folded spectra and the '
+        'Spectrum(boot) re-wrapping are exercised, not modelled',
         'log=True: the exp/log change of variables is checked by L3 closed forms only',
         'chi-square cdf values are scipy inputs to the model; only the mixture/flag logic of sum_chi2_ppf is modelled',
         'object identities (id reuse after a function object is freed) are interpreter facts: modelled by an explicit identity assignment, realised on the implementation by L3']
@@ -1069,8 +1257,12 @@ def run(chk, ctx):
     for _ in range(1 if quick else 8):
         pcs += option_matrix(rng, dadi)
     refusal_cases(chk, ctx, rng)
+    for _ in range(1 if quick else 6):
+        pcs += nested_matrix(rng, dadi)
+        pcs += mask_matrix(rng, dadi)
     for _ in range(30 if quick else 500):
-        pcs.append(gen_pipeline_case(rng, dadi, api=APIS_ALL[int(rng.integers(len(APIS_ALL)))]))
+        mm = MASK_MODES[int(rng.integers(len(MASK_MODES)))] if rng.random() < 0.4 else 'none'
+        pcs.append(gen_pipeline_case(rng, dadi, api=APIS_ALL[int(rng.integers(len(APIS_ALL)))], mask_mode=mm))
     for i, c in enumerate(pcs):
         if i < 2: chk.sample(dict(kind='pipeline', api=c['api'], multinom=c['multinom'], log=c['log'], params=c['p'], theta=c['theta'], eps=c['eps'], nested=c['nested'],
                                   bootstraps=c['nboot'], samples=c['ns']))
